@@ -18,11 +18,14 @@ def main(argv=None):
     ap.add_argument("--seed", type=int, default=None)
     ap.add_argument("--budget", type=float, default=None)
     ap.add_argument("--workers", type=int, default=None)
+    ap.add_argument("--digests", type=int, default=None,
+                    help="self-test: print the execution digest of the first N runs (through the pool), write nothing")
     a = ap.parse_args(argv)
 
-    if os.environ.get("PYTHONHASHSEED") != "0":
+    want_hs = os.environ.get("VERIF_HASHSEED", "0")     # self-test only: run under another hash seed
+    if os.environ.get("PYTHONHASHSEED") != want_hs:
         env = dict(os.environ)
-        env["PYTHONHASHSEED"] = "0"
+        env["PYTHONHASHSEED"] = want_hs
         os.execve(sys.executable, [sys.executable, "-m", "sim.check"] + (argv or sys.argv[1:]), env)
 
     try:
@@ -34,6 +37,13 @@ def main(argv=None):
         seed = a.seed if a.seed is not None else int(os.environ.get("VERIF_SEED", "0") or 0)
         budget = a.budget if a.budget is not None else float(os.environ.get("VERIF_BUDGET_S", "0") or 0) or None
         eng = engine.Engine(cid, tier=a.tier, seed=seed, workers=a.workers, budget_s=budget)
+        if a.digests:
+            try:
+                for idx, d in engine.digest_runs(eng, a.digests):
+                    print(f"DIGEST {cid} {seed} {idx} {d}")
+            finally:
+                eng.close()
+            return 0
         print(f"VERIF_SEED={seed} property={cid} tier={a.tier} workers={eng.workers} repo={engine.REPO}")
         try:
             if hasattr(eng.check, "main"):
